@@ -180,7 +180,7 @@ def exec_single(uni, op, tr):
 
 
 def op_core(op):
-    return {k: v for k, v in op.items() if k not in ("abort_at", "bad", "note", "via")}
+    return {k: v for k, v in op.items() if k not in ("abort_at", "abort_gen", "bad", "note", "via")}
 
 
 def classify(got, ref):
@@ -252,6 +252,7 @@ class Execution:
         self.sut = None
         self.outcomes = []
         self.op_steps = {}
+        self.op_gen_steps = {}
 
     # -- reference -------------------------------------------------------
     def reference(self, nchunks, op):
@@ -337,12 +338,13 @@ class Execution:
                         break
                     continue
                 tr = T.OpTrace(budget_steps=self.step_budget, budget_depth=self.depth_budget,
-                               abort_at=op.get("abort_at"))
+                               abort_at=op.get("abort_at"), abort_at_gen=op.get("abort_gen"))
                 out = exec_single(self.sut, op, tr)
                 self.account(tr)
                 self.op_steps[idx] = tr.steps
                 faulted = False
-                if op.get("abort_at"):
+                self.op_gen_steps[idx] = tr.gen_steps
+                if op.get("abort_at") or op.get("abort_gen"):
                     if tr.abort_site is not None:
                         faulted = True
                         self.stats["aborts_fired"] += 1
